@@ -11,8 +11,9 @@ use crate::util::{Args, Out, Rng};
 
 const W: [&str; 5] = ["zzyzxq", "Zzyzxq", "qwertzuv", "naïvetéx", "ZZYZXQ"];
 // `github`, `markdown`: other capitalisations of curated entries (GitHub, Markdown), reported until the user adds them
-const CURATED_VARIANTS: [&str; 2] = ["github", "markdown"];
-const DOC: &str = "We saw zzyzxq and Zzyzxq then qwertzuv with naïvetéx or ZZYZXQ but teh end of github and markdown";
+// `Zorblaxq’s`, `o’zorbq`: words with a typographic apostrophe, added as they stand in the text
+const CURATED_VARIANTS: [&str; 4] = ["github", "markdown", "Zorblaxq’s", "o’zorbq"];
+const DOC: &str = "We saw zzyzxq and Zzyzxq then qwertzuv with naïvetéx or ZZYZXQ but teh end of github and markdown by Zorblaxq’s o’zorbq";
 
 fn read_words(p: &Path) -> Option<Vec<String>> {
     std::fs::read_to_string(p).ok().map(|s| s.lines().map(|l| l.to_string()).collect())
